@@ -114,6 +114,25 @@ def search(big=False):
             out = 'RAISED:' + type(e).__name__
         if SECRET in out:
             return n, dict(source=src, output=out, what='data the guard refuses (or an underscore name) reached the output')
+    # items iterated by dtml-in go through the guard whatever kind of sequence is given (list, tuple, iterator, generator),
+    # batched or not: a refused item is never shown, and skip_unauthorized skips exactly the refused ones
+    def mk():
+        return [Obj(x='ok1'), Obj(_denied=True, x=SECRET), Obj(x='ok2')]
+    makers = [('list', lambda: mk()), ('tuple', lambda: tuple(mk())), ('iterator', lambda: iter(mk())),
+              ('generator', lambda: (x_ for x_ in mk()))]
+    for kind, make in makers:
+        for attrs in ('', ' size=5', ' start=1 size=2 orphan=0'):
+            for skip in ('', ' skip_unauthorized'):
+                n += 1
+                G = make_class()
+                src = '<dtml-in seq%s%s>[<dtml-var x>]</dtml-in>' % (attrs, skip)
+                try:
+                    out = G(src)(seq=make())
+                except Exception as e:  # noqa
+                    out = 'RAISED:' + type(e).__name__
+                if SECRET in out or (skip and attrs != ' start=1 size=2 orphan=0' and out != '[ok1][ok2]'):
+                    return n, dict(source=src, sequence_kind=kind, output=out,
+                                   what='an item the guard refuses was displayed / skip_unauthorized did not skip exactly the refused items')
     # dtml-tree with skip_unauthorized: no refused branch is shown, every allowed one is
     import itertools
     for k in (3, 4):
